@@ -31,7 +31,7 @@ WRAPPED = ("service", "received", "handle_read", "handle_write", "handle_close",
            "_flush_some", "_flush_some_if_lockable", "cancel")
 
 COVERED = {"worker_close", "flushed", "maint", "handle_close", "eof", "cancel_wc", "cancel_conn",
-           "flush_err_io", "flush_err_w"}
+           "flush_err_io", "flush_err_w", "oracle_undelimited"}
 UNCOVERED = set()
 
 
@@ -364,6 +364,8 @@ class CloseWorld(World):
                 st = world._ctx()
                 st.append([name, 0])
                 world.sched.note("enter", name)
+                if name == "write_soon" and a and isinstance(a[0], (bytes, bytearray)):
+                    world.sched.note("wsoon", bytes(a[0]))     # the response stream, for the wire oracle
                 try:
                     return orig(self, *a, **k)
                 finally:
@@ -417,13 +419,72 @@ class CloseWorld(World):
 # ----------------------------------------------------------------------------------------
 # real trace -> labels (for the monitors; works at both granularities)
 
-def labels_of(events):
+def response_due(out):
+    """THE WIRE ORACLE for "a close decision is due": `out` is everything one service() invocation handed
+    to write_soon (the response as it goes to the wire).  -> None if the response is delimited exactly
+    as it announces and announces no close; otherwise the reason why the connection cannot be kept.
+    (Requests in the scenarios are GET/POST: no HEAD.)"""
+    if not out:
+        return None
+    i = out.find(b"\r\n\r\n")
+    if i < 0:
+        return "response head not completed"
+    lines = out[:i].decode("latin-1").split("\r\n")
+    parts = lines[0].split(" ", 2)
+    status = parts[1] if len(parts) > 1 else ""
+    hdr = {}
+    for l in lines[1:]:
+        k, _, v = l.partition(":")
+        hdr.setdefault(k.strip().lower(), []).append(v.strip())
+    body = out[i + 4:]
+    if any("close" in [x.strip().lower() for x in v.split(",")] for v in hdr.get("connection", [])):
+        return "Connection: close announced"
+    if status[:1] == "1" or status in ("204", "304"):
+        return "body after a %s head" % status if body else None
+    if any("chunked" in v.lower() for v in hdr.get("transfer-encoding", [])):
+        return None if body.endswith(b"0\r\n\r\n") else "chunked body not terminated"
+    if "content-length" in hdr:
+        try:
+            n = int(hdr["content-length"][-1])
+        except ValueError:
+            return "unreadable Content-Length"
+        return None if len(body) == n else "Content-Length %d announced, %d body bytes written" % (n, len(body))
+    return "response delimited by closing the connection"
+
+
+def oracle_points(events):
+    """-> {event index: reason}: right after the last byte a service() invocation produced, when the wire
+    oracle says that a close decision is due for that response."""
+    cur = {}
+    pts = {}
+    for i, (t, kind, d) in enumerate(events):
+        if kind == "service_start":
+            cur[t] = [b"", None]
+        elif kind == "wsoon" and t in cur:
+            cur[t][0] += d
+            cur[t][1] = i
+        elif kind == "service_end" and t in cur:
+            out, last = cur.pop(t)
+            why = response_due(out)
+            if why is not None and last is not None:
+                pts[last] = why
+    return pts
+
+
+def labels_of(events, oracle=False):
     """-> list of label strings in the syntax of ocaml/chanclose/driver.ml: dec:<kind>,
-    start:<sid>, app:<sid>:<rid or 0>, end:<sid>.  Service ids count service_start events."""
+    start:<sid>, app:<sid>:<rid or 0>, end:<sid>.  Service ids count service_start events.
+    oracle=True: the points where the wire oracle says a close decision is due are labelled
+    dec:oracle_undelimited -- a decision of the SPECIFICATION ("a response that could not be delimited");
+    the monitor then requires that no service() entered after it calls the application, whether or
+    not the code took a decision of its own."""
     out = []
     cur = {}
     nsvc = 0
-    for t, kind, d in events:
+    pts = oracle_points(events) if oracle else {}
+    for i, (t, kind, d) in enumerate(events):
+        if i in pts:
+            out.append("dec:oracle_undelimited")
         if kind == "decide":
             out.append("dec:%s" % d[0])
         elif kind == "service_start":
@@ -1003,6 +1064,10 @@ def req_bytes(kind, idx):
         return b"POST " + p + b" HTTP/1.1\r\nHost: x\r\nContent-Length: 3\r\nExpect: 100-continue\r\n\r\n"
     if kind == "body3":
         return b"abc"
+    if kind in FAILING_KINDS:
+        if kind == "ose_mid10":
+            return b"GET /ose_mid%d HTTP/1.0\r\nConnection: keep-alive\r\n\r\n" % idx
+        return b"GET /" + kind.encode() + b"%d HTTP/1.1\r\nHost: x\r\n\r\n" % idx
     if kind == "raise":
         return b"GET /raise%d HTTP/1.1\r\nHost: x\r\n\r\n" % idx
     if kind == "nolen":
@@ -1010,11 +1075,60 @@ def req_bytes(kind, idx):
     raise ValueError(kind)
 
 
+FAILING_KINDS = ("ose_pre", "ose_head", "ose_mid", "exc_mid", "ose_chunk", "exc_chunk", "ose_close", "short", "ose_mid10")
+
+
+class _ClosingIter:
+    """an app_iter whose close() fails"""
+
+    def __init__(self, chunks, exc):
+        self.it = iter(chunks)
+        self.exc = exc
+
+    def __iter__(self):
+        return self
+
+    def __next__(self):
+        return next(self.it)
+
+    def close(self):
+        raise self.exc
+
+
 def make_app():
     def app(environ, start_response):
         path = environ.get("PATH_INFO", "")
         if path.startswith("/raise"):
             raise ValueError("application failure")
+        # applications that fail: before any output, after start_response, in the middle of a body
+        # announced with Content-Length / sent chunked, in close(); with OSError subclasses and others
+        if path.startswith("/ose_pre"):
+            raise ConnectionResetError("upstream reset")
+        if path.startswith("/ose_head"):
+            start_response("200 OK", [("Content-Length", "10")])
+            raise BrokenPipeError("upstream pipe")
+        if path.startswith("/ose_mid") or path.startswith("/exc_mid"):
+            exc = TimeoutError("upstream timeout") if path.startswith("/ose") else ValueError("bug")
+            start_response("200 OK", [("Content-Length", "10")])
+
+            def gen():
+                yield b"abc"
+                raise exc
+            return gen()
+        if path.startswith("/ose_chunk") or path.startswith("/exc_chunk"):
+            exc = ConnectionAbortedError("upstream abort") if path.startswith("/ose") else KeyError("bug")
+            start_response("200 OK", [("Content-Type", "text/plain")])
+
+            def gen2():
+                yield b"abc"
+                raise exc
+            return gen2()
+        if path.startswith("/ose_close"):
+            start_response("200 OK", [("Content-Length", "3")])
+            return _ClosingIter([b"abc"], OSError(5, "close failed"))
+        if path.startswith("/short"):
+            start_response("200 OK", [("Content-Length", "10")])
+            return [b"abc"]
         body = path.encode()
         if path.startswith("/nolen"):
             start_response("200 OK", [("Content-Type", "text/plain")])   # undelimitable on HTTP/1.0; chunked on 1.1
@@ -1054,6 +1168,7 @@ def build_world(sc, schedule=(), policy=None, granularity="locks", cls=None):
     plan = [tuple(x) if isinstance(x, list) else x for x in sc.get("send_plan", [])]
     rf = {int(k): v for k, v in (sc.get("recv_faults") or {}).items()}
     adj_kw = {"channel_request_lookahead": sc.get("lookahead", 0)}
+    adj_kw.update(sc.get("adj") or {})       # e.g. log_socket_errors, expose_tracebacks
     kw = {}
     if sc.get("maint") is not None:
         # maintenance in the given poll turns (True: all); timeout < 0: every idle channel is overdue
@@ -1151,6 +1266,26 @@ def gen_race_scenario(rng):
     if rng.random() < 0.1:
         sc["maint"] = sorted(set(rng.randrange(1, 7) for _ in range(2)))
         sc["channel_timeout"] = -1000
+    return sc
+
+
+def gen_appfail_scenario(rng):
+    """The task's verdict as a function of how the application fails and of the configuration: a real
+    WSGITask whose application raises (OSError subclasses and others; before output, after the head,
+    mid-body with Content-Length / chunked, in close()) or under-delivers, with log_socket_errors and
+    expose_tracebacks on or off, and at least one more request queued behind it or arriving later."""
+    msgs = [rng.choice(FAILING_KINDS)]
+    if rng.random() < 0.3:
+        msgs.insert(0, "get")
+    for _ in range(rng.choice([1, 1, 2])):
+        msgs.append(rng.choice(["get", "get", "post", "close", rng.choice(FAILING_KINDS)]))
+    sc = {"msgs": msgs, "cuts": rng.choice([[], ["boundaries"], ["boundaries"]]), "close": rng.random() < 0.15,
+          "lookahead": rng.choice([0, 0, 1, 2, 5]), "workers": rng.choice([1, 1, 2]),
+          "adj": {"log_socket_errors": rng.random() < 0.5, "expose_tracebacks": rng.random() < 0.3}}
+    if rng.random() < 0.4:
+        sc["wait_wire"] = rng.choice([1, 60, 100])
+    if rng.random() < 0.15:
+        sc["send_plan"] = [rng.choice([7, 40]), 0] * rng.choice([1, 2])
     return sc
 
 
